@@ -441,28 +441,50 @@ theorem metricCalc_run_eq_spec [DivisionRing α] [LinearOrder α] (env : Env α 
     show ((wavgCalc (numSrc f) (some (numSrc w))).embed MSt.two MSt.two? 0).run ms = specWAvg (numSrc f) (some (numSrc w)) ms
     rw [embed_run MSt.two MSt.two? 0 _ (fun _ => rfl), weighted_avg_eq_spec]
 
-/-- the nested bucket of a terms / range bucket: count first, then every nested metric, each by direct definition -/
+/-- one nested aggregation of a bucket = its direct definition (a nested sketch is the sketch fed the bucket's
+values directly) -/
+theorem subCalc1_run_eq_spec [DivisionRing α] [LinearOrder α] (env : Env α S Q)
+    (hof : ∀ n : Nat, env.ofNat n = (n : α)) (x : SubAgg α) (ms : List (DocVals α)) :
+    (subCalc1 env x).run ms = specSub env x ms := by
+  cases x with
+  | metric m =>
+    show (((metricCalc env m).mapVal SRes.m).embed SSt.m SSt.m? (.m 0)).run ms = SRes.m (specMetric env m ms)
+    rw [embed_run SSt.m SSt.m? _ _ (fun _ => rfl), mapVal_run, metricCalc_run_eq_spec env hof]
+  | card f =>
+    show (((sketchCalc env.hll env.hllInsert (txtSrc f)).mapVal SRes.card).embed SSt.card SSt.card? (.m 0)).run ms = _
+    rw [embed_run SSt.card SSt.card? _ _ (fun _ => rfl), mapVal_run, sketch_fed_exactly]; rfl
+  | quant f =>
+    show (((sketchCalc env.td env.tdAdd (numSrc f)).mapVal SRes.quant).embed SSt.quant SSt.quant? (.m 0)).run ms = _
+    rw [embed_run SSt.quant SSt.quant? _ _ (fun _ => rfl), mapVal_run, sketch_fed_exactly]; rfl
+
+/-- the nested bucket of a terms / range bucket: count first, then every nested aggregation, each by direct definition -/
 theorem subCalc_run_eq_spec [DivisionRing α] [LinearOrder α] (env : Env α S Q)
-    (hof : ∀ n : Nat, env.ofNat n = (n : α)) (subs : List (Metric α)) (ms : List (DocVals α)) :
+    (hof : ∀ n : Nat, env.ofNat n = (n : α)) (subs : List (SubAgg α)) (ms : List (DocVals α)) :
     (subCalc env subs).run ms = specSubs env subs ms := by
-  unfold subCalc specSubs
+  show (Calc.all ((SubAgg.metric .count :: subs).map (subCalc1 env))).run ms = _
   rw [all_run, List.map_map]
   apply List.map_congr_left
   intro m _
-  exact metricCalc_run_eq_spec env hof m ms
+  exact subCalc1_run_eq_spec env hof m ms
 
 /-- the nested bucket contains "count": `uint64(count.Value())` is the number of matches it consumed -/
 theorem cntOf_subCalc [DivisionRing α] [LinearOrder α] (env : Env α S Q)
-    (hto : ∀ n : Nat, env.toNat (n : α) = n) (subs : List (Metric α)) (xs : List (DocVals α)) :
+    (hto : ∀ n : Nat, env.toNat (n : α) = n) (subs : List (SubAgg α)) (xs : List (DocVals α)) :
     cntOf env ((subCalc env subs).feed xs) = xs.length := by
-  have h0 : (subCalc env subs).feed xs = ((Metric.count :: subs).map (metricCalc env)).map (fun c => c.feed xs) :=
+  have h0 : (subCalc env subs).feed xs = ((SubAgg.metric .count :: subs).map (subCalc1 env)).map (fun c => c.feed xs) :=
     all_feed _ xs
   have h1 : ((countCalc : Calc (DocVals α) α α).embed MSt.one MSt.one? 0).feed xs = MSt.one (countCalc.feed xs) :=
     embed_foldl MSt.one MSt.one? 0 countCalc (fun _ => rfl) countCalc.init xs
+  have h1' : (subCalc1 env (SubAgg.metric .count)).feed xs = SSt.m (MSt.one ((countCalc : Calc (DocVals α) α α).feed xs)) := by
+    let inner : Calc (DocVals α) (MSt α) (SRes α S Q) := (metricCalc env Metric.count).mapVal SRes.m
+    have := embed_foldl (τ := SSt α S Q) SSt.m SSt.m? (SRes.m 0) inner (fun _ => rfl) inner.init xs
+    show List.foldl (subCalc1 env (SubAgg.metric .count)).consume _ xs = _
+    rw [← h1]
+    exact this
   have h2 : (countCalc : Calc (DocVals α) α α).feed xs = (xs.length : α) := count_eq_length (α := α) xs
   rw [h0]
-  show cntOf env (((countCalc : Calc (DocVals α) α α).embed MSt.one MSt.one? 0).feed xs :: _) = _
-  rw [h1]
+  show cntOf env ((subCalc1 env (SubAgg.metric .count)).feed xs :: _) = _
+  rw [h1']
   show env.toNat (countCalc.feed xs) = _
   rw [h2, hto]
 
@@ -470,7 +492,7 @@ theorem cntOf_subCalc [DivisionRing α] [LinearOrder α] (env : Env α S Q)
 value inside the range; the count is the number of values inside -/
 theorem ranges_run_eq_spec [DivisionRing α] [LinearOrder α] (env : Env α S Q)
     (hof : ∀ n : Nat, env.ofNat n = (n : α)) {β R : Type} (src : DocVals α → List β) (rs : List R)
-    (mem : R → β → Bool) (subs : List (Metric α)) (ms : List (DocVals α)) :
+    (mem : R → β → Bool) (subs : List (SubAgg α)) (ms : List (DocVals α)) :
     (rangeCalc src rs mem (subCalc env subs)).run ms = rs.map (fun r => specSubs env subs (occR src mem r ms)) := by
   rw [range_run]
   apply List.map_congr_left
@@ -584,8 +606,8 @@ theorem two_aggregations_same_field_fails :
 theorem agg_exact_fails_without_range_fields (b : Bool) :
     ¬ AggExact Int { dedupNeeded := b, rangeFieldsNested := false } := by
   intro h
-  have h1 := h Unit Unit Unit wEnv wCfg (fun _ => ()) [] [.ranges "p" [(0, 10)] [.sum "q"]] [wDoc]
-  have h2 := congrArg (fun l => match l with | [ARes.r [[_, v]]] => v | _ => 0) h1
+  have h1 := h Unit Unit Unit wEnv wCfg (fun _ => ()) [] [.ranges "p" [(0, 10)] [.metric (.sum "q")]] [wDoc]
+  have h2 := congrArg (fun l => match l with | [ARes.r [[_, SRes.m v]]] => v | _ => 0) h1
   revert h2; cases b <;> decide
 
 /-- **the property holds for a description of the code iff both repairs are in it** -/
@@ -623,12 +645,12 @@ theorem loadedOnce_code {α : Type} (sf : List Field) (aggs : List (Agg α)) : L
 /-! ### non-vacuity of the hypotheses -/
 
 /-- `LoadedOnce` is decidable; before the repairs it held for ordinary requests … -/
-example : LoadedOnce pinnedFacts ["k"] [(Agg.terms "c" 3 [.sum "q"] : Agg Int), .metric (.min "p")] := by decide
+example : LoadedOnce pinnedFacts ["k"] [(Agg.terms "c" 3 [.metric (.sum "q"), .quant "r"] : Agg Int), .metric (.min "p")] := by decide
 /-- … and fails exactly in the reported situations -/
 example : ¬ LoadedOnce pinnedFacts ["p"] [(Agg.metric (.sum "p") : Agg Int)] := by decide
-example : ¬ LoadedOnce pinnedFacts [] [(Agg.ranges "p" [(0, 10)] [.sum "q"] : Agg Int)] := by decide
+example : ¬ LoadedOnce pinnedFacts [] [(Agg.ranges "p" [(0, 10)] [.metric (.sum "q")] : Agg Int)] := by decide
 /-- the nested bucket's count is the number of matches it consumed (hypothesis `hcnt` of the terms / range theorems) -/
-example {α : Type} [DivisionRing α] [LinearOrder α] (subs : List (Metric α)) (xs : List (DocVals α))
+example {α : Type} [DivisionRing α] [LinearOrder α] (subs : List (SubAgg α)) (xs : List (DocVals α))
     (env : Env α Unit Unit) (hto : ∀ n : Nat, env.toNat (n : α) = n) :
     cntOf env ((subCalc env subs).feed xs) = xs.length :=
   cntOf_subCalc env hto subs xs
@@ -665,5 +687,28 @@ theorem numbers_decode_value (x : I64) : numbersOf (shiftTerms (f2i x)) = [x] :=
   rw [this]
   rfl
 end Decode
+
+/-! ## 11. Facts about the code that no run can observe, regenerated from the source (`go/extract/c16.go`) -/
+
+/-- every `Calculator()` of search/aggregations builds the calculator's mutable state itself: no field of the
+aggregation DEFINITION that can hold mutable state (a sketch, a map, a bucket list, …) is handed to the calculator.
+`sketch_fed_exactly`, `terms_bucket_state` and `range_bucket_state` are about one calculator's own state; this is what
+makes two buckets of one request, and two requests built from one definition, independent. -/
+theorem calculators_are_fresh : BlugeGen.C16.sharedMutable = [] := by decide
+
+/-- … and the extractor saw every aggregation type the model interprets -/
+theorem calculator_types_known :
+    ∀ t ∈ ["CardinalityMetric", "DateRangeAggregation", "QuantilesMetric", "RangeAggregation", "SingleValueMetric",
+           "TermsAggregation", "WeightedAvgMetric"], t ∈ BlugeGen.C16.calculatorTypes := by decide
+
+/-- `collectSingle` is: load doc values → compute sort → `bucket.Consume` → search-after filter →
+lowest-outside-results shortcut → store add — the order `Bluge.Agg.collectSingle` transcribes and `agg_sees_all` is about -/
+theorem collect_single_order : BlugeGen.C16.collectSingleOrder = collectSingleSteps := by decide
+
+/-- `AllIterator.Next`: done guard first; `Consume` before the match is handed out; `Finish` exactly once, in the
+end-of-matches branch, which marks the iterator done -/
+theorem all_next_order :
+    BlugeGen.C16.allNextOrder = allNextSteps ∧ BlugeGen.C16.allNextFinishCalls = 1 ∧
+    BlugeGen.C16.allNextFinishInEndBranch = true ∧ BlugeGen.C16.allNextEndMarksDone = true := by decide
 
 end Bluge.C16
